@@ -323,6 +323,12 @@ class Kinds:
                     stats["unknown"] += 1
                     return
                 ok = not is_nominal(k) and k[0] != CONFLICT
+                core = ix
+                while core[0] == "old":
+                    core = core[1]
+                if not ok and base[2] == "idx_nodes" and k[0] == "NodeIdx" and core[0] == "iter" and core[1][0] == "call" \
+                        and core[1][1] == ("builtin", "range") and len(core[1][2]) == 1:
+                    ok = True  # a counter over range(n_nodes) enumerates the positions of the conquest order just as well
                 report("K1", ev, show(t), ok,
                        "" if ok else f"position '{show(ix)}' of kind {kshow(k)} used as an ordinal position")
                 return
